@@ -256,8 +256,11 @@ impl Request {
             if line == "\r\n" {
                 break;
             } else {
-                safe_assert(line.len() >= 2)?;
-                let line_without_crlf = &line[0..line.len() - 2];
+                // A header line has to end with CRLF (cutting two bytes off blindly would panic inside a
+                //   multi-byte character and misread a line that ends with a bare LF)
+                let line_without_crlf = line
+                    .strip_suffix("\r\n")
+                    .to_error(RequestError::Request)?;
                 let mut line_parts = line_without_crlf.splitn(2, ':');
                 headers.add(
                     HeaderType::from(line_parts.next().to_error(RequestError::Request)?),
@@ -354,8 +357,11 @@ impl Request {
             if line == "\r\n" {
                 break;
             } else {
-                safe_assert(line.len() >= 2)?;
-                let line_without_crlf = &line[0..line.len() - 2];
+                // A header line has to end with CRLF (cutting two bytes off blindly would panic inside a
+                //   multi-byte character and misread a line that ends with a bare LF)
+                let line_without_crlf = line
+                    .strip_suffix("\r\n")
+                    .to_error(RequestError::Request)?;
                 let mut line_parts = line_without_crlf.splitn(2, ':');
                 headers.add(
                     HeaderType::from(line_parts.next().to_error(RequestError::Request)?),
